@@ -31,6 +31,9 @@ type prepT struct {
 	r    *rig.Rig
 	st   *refstore.State
 	vals map[string]string
+	// fault, when set, is consulted for every storage call of a served request
+	// (idx = journal position since the last reset)
+	fault func(idx int, method string) error
 }
 
 func mustJSON(v any) []byte {
@@ -686,8 +689,11 @@ type spyWriter struct {
 	http.ResponseWriter
 	wrote       bool
 	errWritten  bool
+	firstStack  string // where the first answer was started (any status)
 	errStack    string
 	secondStack string
+	writes      int
+	laterStack  string // where the second Write call came from
 }
 
 func curStack() string {
@@ -702,16 +708,24 @@ func (s *spyWriter) WriteHeader(code int) {
 		}
 	} else {
 		s.wrote = true
+		s.firstStack = curStack()
 		if code >= 400 {
 			s.errWritten = true
-			s.errStack = curStack()
+			s.errStack = s.firstStack
 		}
 	}
 	s.ResponseWriter.WriteHeader(code)
 }
 
 func (s *spyWriter) Write(b []byte) (int, error) {
-	s.wrote = true
+	if !s.wrote {
+		s.wrote = true
+		s.firstStack = curStack()
+	}
+	s.writes++
+	if s.writes == 2 {
+		s.laterStack = curStack()
+	}
 	return s.ResponseWriter.Write(b)
 }
 
@@ -739,8 +753,10 @@ func commonSite(a, b string) string {
 type served struct {
 	resp      *rig.Resp
 	stack     string // panic stack
+	first     string // stack at the start of the first answer
 	errStack  string
 	second    string
+	later     string // stack of the second Write call
 	contStack string
 	journal   int
 }
@@ -769,13 +785,20 @@ func judgeResp(rule, where string, sv served) engine.Result {
 	if hdrs > 1 {
 		s := "unknown"
 		if sv.second != "" {
-			first := sv.errStack
+			first := sv.first
 			if first == "" {
 				first = sv.second
 			}
 			s = commonSite(first, sv.second)
 		}
 		return engine.Bad(rule, "double-response", "C09/double-response/"+s, fmt.Sprintf("%s: %d WriteHeader calls (events %+v) body=%q", where, hdrs, resp.Events, clip(string(resp.Body), 300)))
+	}
+	if what := bytesAfterCompleteAnswer(resp); what != "" {
+		s := "unknown"
+		if sv.later != "" && sv.first != "" {
+			s = commonSite(sv.first, sv.later)
+		}
+		return engine.Bad(rule, "bytes-after-answer", "C09/bytes-after-complete-answer/"+s, fmt.Sprintf("%s: %s; status %d, %d Write call(s), body=%q", where, what, resp.Status, countWrites(resp), clip(string(resp.Body), 400)))
 	}
 	if errAt >= 0 && sv.journal > errAt {
 		s := "unknown"
@@ -796,6 +819,49 @@ func judgeResp(rule, where string, sv served) engine.Result {
 	return engine.OK(rule, outcome)
 }
 
+func countWrites(resp *rig.Resp) int {
+	n := 0
+	for _, e := range resp.Events {
+		if e.Kind == "write" {
+			n++
+		}
+	}
+	return n
+}
+
+// bytesAfterCompleteAnswer looks for content behind an answer that was already
+// complete (a second answer started without a second WriteHeader). It only
+// knows the three self-delimiting bodies the library produces: an HTML
+// document (nothing but white space may follow the first </html>), the anchor
+// net/http writes for a redirect (one anchor, nothing behind it) and a body of
+// a response that must not have one (HEAD is not judged: the server drops it).
+// JSON bodies are judged by oneJSONValue.
+func bytesAfterCompleteAnswer(resp *rig.Resp) string {
+	body := resp.Body
+	low := bytes.ToLower(body)
+	lead := bytes.TrimSpace(low)
+	isHTML := bytes.HasPrefix(lead, []byte("<!doctype html")) || bytes.HasPrefix(lead, []byte("<html"))
+	if i := bytes.Index(low, []byte("</html>")); i >= 0 && isHTML {
+		if rest := bytes.TrimSpace(body[i+len("</html>"):]); len(rest) > 0 {
+			return fmt.Sprintf("%d byte(s) follow the end of the HTML document: %q", len(rest), clip(string(rest), 120))
+		}
+		if bytes.Count(low, []byte("<html")) > 1 {
+			return "two HTML documents in one body"
+		}
+		return ""
+	}
+	if resp.Status >= 300 && resp.Status < 400 && bytes.HasPrefix(bytes.TrimSpace(low), []byte("<a href=")) {
+		if i := bytes.Index(low, []byte("</a>")); i >= 0 {
+			rest := bytes.TrimSpace(body[i+len("</a>"):])
+			rest = bytes.TrimPrefix(rest, []byte("."))
+			if rest = bytes.TrimSpace(rest); len(rest) > 0 {
+				return fmt.Sprintf("%d byte(s) follow the redirect anchor: %q", len(rest), clip(string(rest), 120))
+			}
+		}
+	}
+	return ""
+}
+
 // serve runs req on the chosen entry with a panic capture that keeps the stack.
 func (p *prepT) serve(ep *endpointT, entry int, req *http.Request) served {
 	var h http.Handler
@@ -810,9 +876,12 @@ func (p *prepT) serve(ep *endpointT, entry int, req *http.Request) served {
 	var sv served
 	msg := ""
 	var spy *spyWriter
-	p.r.Core.Fault = func(int, string) error {
+	p.r.Core.Fault = func(idx int, method string) error {
 		if spy != nil && spy.errWritten && sv.contStack == "" {
 			sv.contStack = curStack()
+		}
+		if p.fault != nil {
+			return p.fault(idx, method)
 		}
 		return nil
 	}
@@ -826,7 +895,7 @@ func (p *prepT) serve(ep *endpointT, entry int, req *http.Request) served {
 		sv.resp.Panic = msg
 	}
 	if spy != nil {
-		sv.errStack, sv.second = spy.errStack, spy.secondStack
+		sv.first, sv.errStack, sv.second, sv.later = spy.firstStack, spy.errStack, spy.secondStack, spy.laterStack
 	}
 	sv.journal = p.r.Core.JournalLen()
 	return sv
